@@ -327,6 +327,14 @@ def l1_recv(pid, tier, seed):
     out["runs"].append({k: r[k] for k in ("cfg", "generated", "distinct", "depth", "violated", "wall", "cached")})
     if not r["violated"]:
         raise CheckError("model self-test: MCRecv.lossy.cfg no longer shows F5/F10 (update known_findings.json and the model)")
+    # the code before fix F15 (PUBREL waits of a lost session re-armed by resend() and not dropped again) MUST fail
+    r = run_model("MCRecv.tla", "MCRecv.f15.cfg", ["Recv.tla", "MCRecv.tla"], workers=8)
+    out["runs"].append({k: r[k] for k in ("cfg", "generated", "distinct", "depth", "violated", "wall", "cached")})
+    if not r["violated"]:
+        raise CheckError("model self-test: MCRecv.f15.cfg (stale PUBREL wait of a lost session) was NOT caught by the model invariants")
+    # with the fix, even "the old wait wins" (seeded change r3-c04) is harmless for a conformant broker: must hold
+    r = run_model("MCRecv.tla", "MCRecv.keepold.cfg", ["Recv.tla", "MCRecv.tla"], workers=8)
+    out["runs"].append({k: r[k] for k in ("cfg", "generated", "distinct", "depth", "violated", "wall", "cached")})
     out["samples"].append(dict(model="MCRecv.tla", note="inbound QoS 1/2 exchanges, broker retransmission, session loss; one action per handler body"))
     return out
 
